@@ -30,7 +30,15 @@ def run(workload, desc, replay_case=None):
     perkey = collections.Counter()
     it = [replay_case] if replay_case is not None else W.cases(desc)
     deadline = t0 + float(desc.get("budget_s", 1e9))
-    for case in it:
+    it = iter(it)
+    while True:
+        try:
+            case = next(it)
+        except StopIteration:
+            break
+        except Exception:
+            res["harness_errors"].append({"tb": "generator: " + traceback.format_exc()[-2500:]})
+            break
         if time.time() > deadline:
             res["budget_exhausted"] = True
             break
